@@ -185,10 +185,13 @@ def discharge_call(ctx, b, site, what):
     if what in ("Result::unwrap", "Result::expect"):
         pl = place_of(args[0])
         tstr = prog.ty_str(ctx.world._place_ty(b, pl)) if pl else "?"
-        from .c14 import UNWRAP_OK
-        for k, why in UNWRAP_OK.items():
-            if k[0] == stable_path(b) and tstr.startswith(k[2]):
-                return True, "reviewed: " + why
+        from .c14 import UNWRAP_OK_BY_PRODUCER, error_type_is_io_free
+        if pl and error_type_is_io_free(prog, ctx.world._place_ty(b, pl)):
+            # a logic-error expect is still a panic source for a decoder: not discharged here
+            return False, "unwrap/expect on %s (logic error type)" % tstr
+        for l in sl.leaves_of_operand(args[0]):
+            if l[0] == "call" and l[1] in UNWRAP_OK_BY_PRODUCER:
+                return True, "reviewed: " + UNWRAP_OK_BY_PRODUCER[l[1]]
         return False, "unwrap/expect on %s" % tstr
     if what == "Index::index":
         # slicing with constant ranges on a value of known length (hex string of a fixed-size array)
